@@ -2090,7 +2090,7 @@ func (r *stack) revealDescend(inner Stack, idx int) (err error) {
 		case 1:
 			// descend into inner slice #0
 			child, _, _ := inner.index(0)
-			if assert, ok := child.(Interface); ok {
+			if assert, ok := child.(Interface); ok && !isNilPtr(child) {
 				if !assert.IsParen() && !inner.IsParen() {
 					err = r.revealSingle(0)
 					updated = child
